@@ -442,3 +442,13 @@ pub fn history_all_probes_lost(initial: u16, cfg_upper: u16, min_change: u16, ac
     }
     f
 }
+
+/// An `MtuDiscovery` at 1452 bytes (search complete) whose black-hole detector needs just one more
+/// suspicious loss burst - for native replay bodies outside this module.
+pub fn mk_black_hole_ready() -> MtuDiscovery {
+    let m = M {
+        current: 1452, min_mtu: 1200, enabled: true, phase: 2, peer_max: 65527, cfg_upper: 1452, min_change: 20, lower: 1200, upper: 1452,
+        last_probed: 1452, in_flight: false, in_flight_pn: 0, lost: 0, complete_secs: 40, interval_secs: 600, cooldown_secs: 60, ghost_min_peer: 65527,
+    };
+    build(&m, &[1400, 1400, 1400], None, 0, 1200).unwrap()
+}
